@@ -39,6 +39,21 @@ Section Assign.
               end) ch)
     end.
 
+  (** all ways of writing one state [0..n-1] at every leaf of [t] (= all
+      possible alignment columns over unambiguous symbols) *)
+  Fixpoint labelings (t : tree L E) : list (tree nat E) :=
+    match t with
+    | Leaf _ => map (fun s => Leaf s) (seq 0 n)
+    | Node ch =>
+        map (fun l => Node l)
+          ((fix go (l : list (E * tree L E)) : list (list (E * tree nat E)) :=
+              match l with
+              | [] => [[]]
+              | ec :: l' =>
+                  flat_map (fun c' => map (fun rest => (fst ec, c') :: rest) (go l')) (labelings (snd ec))
+              end) ch)
+    end.
+
   (** assignments to all nodes including the root *)
   Definition full_assignments (t : tree L E) : list (nat * stree) :=
     flat_map (fun i => map (fun s => (i, s)) (assignments t)) (seq 0 n).
@@ -121,6 +136,9 @@ Section Spec.
 
   (** indicator function of a set, as leaf weight *)
   Definition indicator (set : nat -> bool) (i : nat) : R := if set i then one else zero.
+
+  (** leaf weight of an unambiguous symbol: state [s] observed *)
+  Definition point (s : nat) (i : nat) : R := if Nat.eqb i s then one else zero.
 End Spec.
 
 (** functional views of the list-based vectors and matrices of the model *)
